@@ -34,7 +34,8 @@ META = {
             "insertMu/metric RWMutex) for all 36 actor pairs and two triples: NoRace, NoLostIncrement, ExportedValueExisted, no lock "
             "cycle; the real actors run concurrently under the Go race detector with seeded perturbation for every pair, each report is "
             "mapped to the model's (actor, site) pairs and must be predicted by an open deviation; increment/export event logs of real "
-            "runs are validated by TraceConcurrency.tla.",
+            "runs are validated by TraceConcurrency.tla; after every concurrent run each metric must be a map again (slice and index name "
+            "the same label values), also after long runs of the removing actors (del lines against Gc's limit eviction).",
     "note": "The race detector only reports races that occur in the schedules run (no false positives, possible misses); the model's "
             "exhaustiveness is over the lock protocol as modelled, the real schedules are sampled. The push exporters (collectd/graphite/"
             "statsd) are run through writeSocketMetrics with a discarding connection, not through a socket.",
